@@ -96,12 +96,14 @@ def cq_cluster(c):
 
 
 OP = {"add": "Add", "update": "Update", "update-irrelevant": "Update", "update-invalid": "Update", "update-valid": "Update",
-      "delete": "Delete"}
+      "update-metadata": "Update", "relabel-to": "Update", "relabel-away": "Update", "delete": "Delete"}
 
 
 def events_of(o, model=False):
     """events that could be driven; model=True: only the kinds the model knows (APUserSig is judged by S alone)"""
-    return [x for x in o.get("events") or [] if not x.get("err") and not (model and x["kind"] == "usersig")]
+    # relabel-away reaches the Service the slice left through syncService (no endpoints filter): an update of another kind of
+    # object from the model's point of view, so it is judged by S alone as well
+    return [x for x in o.get("events") or [] if not x.get("err") and not (model and (x["kind"] == "usersig" or x["op"] == "relabel-away"))]
 
 
 def deps_of(o):
@@ -307,7 +309,7 @@ def judge(run, cases, res):
                 run.failing({"kind": "unreachable-dependency", "dep": d["kind"], "position": pos}, [c],
                             "case %d (%s): the extended resource %s depends on %s %s (position %s) but the reverse path does not map it back"
                             % (cid, c["class"], o["res_key"], d["kind"], d["key"], pos), theorem="Refs.Cases.spec_ok")
-        if not spec or any(x["stale"] for x in evs if x["kind"] == "usersig"):
+        if not spec or any(x["stale"] for x in evs if x["kind"] == "usersig" or x["op"] == "relabel-away"):
             seen = set()
             for x in evs:                            # Refs.Cases.ev_spec_ok (APUserSig events: the same observable, judged here)
                 if not x["stale"]:
@@ -385,7 +387,8 @@ def check(run):
                        "creating each of the 56+ objects of the universe (dependency = the result differs); (b) the real FindResourcesFor*, second-hop "
                        "functions and endpoints filters for every object; (c) for every dependency and two non-dependencies, a fresh controller with the real "
                        "Configurator and templates, the notification (add / update / irrelevant update / delete) through the real handler, work queue and "
-                       "lbc.sync (event kinds: add, update, update whose new version fails validation, update that repairs an unusable object, irrelevant "
+                       "lbc.sync (event kinds: add, update, for an EndpointSlice also a metadata-only update and label-only updates that move a slice to or "
+                       "away from the Service, update whose new version fails validation, update that repairs an unusable object, irrelevant "
                        "Service update, delete), then: was the resource's file rewritten, and would a regeneration still change it.  A case is distinct by its full input "
                        "and non-trivial when the resource depends on at least one object.")
     run.cov["trusted_base"] = TRUSTED
